@@ -265,6 +265,22 @@ func c52(c *Ctx) {
 			}
 		}
 		c.Expect(n >= 3, nil, nil, "relocation-sites", "fewer buffer relocation sites than the 3 confirmed by reading")
+		// growing the receive buffer: the new buffer must hold the 4-byte length header plus the announced frame length
+		ro := c.fn(altsc, "conn.ReadOnReady")
+		nG := 0
+		for _, g := range callsIn(ro, Callee("internal/mem", "SimpleBufferPool.Get")) {
+			if !c.HasFact(g, Truth(ExtractOf(CallRes(Callee(altsc, "parseMessageLength"), -1), 1), true)) {
+				continue
+			}
+			nG++
+			frameLen := func(v ssa.Value) bool {
+				return ExtractOf(CallRes(Callee(altsc, "parseMessageLength"), -1), 0)(stripConv(v))
+			}
+			c.ArgIs(g, 1, "grown-buffer-holds-header-plus-frame", func(v ssa.Value) bool {
+				return BinOpV(token.ADD, frameLen, ConstInt(4))(v) || BinOpV(token.ADD, ConstInt(4), frameLen)(v)
+			})
+		}
+		c.Expect(nG == 1, nil, ro, "growth-site", "expected one growth of the receive buffer to the announced frame size")
 	})
 	c.Ob("error-discipline", "R2", "Write, ReadOnReady and the connection constructor never continue past a failing helper (encryption, decryption, frame parsing, network read/write) to a success return", 8, func() {
 		n := 0
